@@ -290,8 +290,13 @@ void exec_op(World& w, const Op& op) {
       jitmodel::SpanInfo& info = w.model.live[h.rx];
       uint8_t junk[64]; memset(junk, 0xEE, sizeof junk);
       Error err;
-      if (op.a[1] & 1) err = a.write(h.span, info.size + 1, junk, 1);            // offset past the end
-      else err = a.write(h.span, info.size - 8, junk, 16);                       // range crosses the end
+      switch (uint64_t(op.a[1]) % 5) {
+        case 0: err = a.write(h.span, info.size + 1, junk, 1); break;              // offset past the end
+        case 1: err = a.write(h.span, info.size - 8, junk, 16); break;             // range crosses the end
+        case 2: err = a.write(h.span, SIZE_MAX - 7, junk, 16); break;              // offset + size wraps around to a small value
+        case 3: err = a.write(h.span, SIZE_MAX - size_t(uint64_t(op.a[2]) % 64), junk, 1 + size_t(uint64_t(op.a[2]) % 64)); break;   // wraps to exactly 0
+        default: err = a.write(h.span, size_t(uint64_t(op.a[2]) % info.size), junk, SIZE_MAX - 3); break;   // huge size
+      }
       SIM_CHECK(err != Error::kOk, "c09:bad-write-accepted", "write() outside the span succeeded");
       jitmodel::check_stamp(info, w.model.cfg.granularity, "c09", "after rejected write");
       check_neighbours(w, h.rx, "after rejected write");
